@@ -42,6 +42,7 @@ def run(run, h):
         honest_case(run, h, pts, batch, rng, M, cid, cb, mb, ctx)
         forger_family(run, h, pts, batch, rng, M, cid, cb, mb, ctx)
         compensating_family(run, h, pts, batch, rng, M, cid, cb, mb, ctx)
+    generated_merchant_case(run, h, rng)
     batch.flush()
 
 
@@ -193,6 +194,47 @@ def forger_family(run, h, pts, batch, rng, M, cid, cb, mb, ctx):
             if run.tier == "quick" and strat in ("a_honest_algorithm", "d_solve_T") and rng.random() < 0.6:
                 continue
             attempt(run, h, pts, batch, rng, M, cid, cb, mb, ctx, agreed, name, ms, mc, strat)
+
+
+def generated_merchant_case(run, h, rng):
+    """a merchant from merchant::Config::new (not one assembled from chosen discrete logs): after an honest establishment the
+    closing signature and the pay token must verify on exactly the agreed close state / state - on no state with one slot
+    changed, and on none in which value was MOVED between two slots (balances shifted against each other, channel id against
+    lock): the latter would pass if the key's exponents were not independent"""
+    for rep in range(1 if run.tier == "quick" else 3):
+        h.rng(rng.randrange(2 ** 31))
+        t = h.call("m_new")
+        Mg = Merchant()
+        Mg.handle, Mg.h = t[0], h
+        kpb = bytes.fromhex(t[1])
+        pk_hex = kpb[32 + 8 + 160 + 48:].hex()
+        Mg.cconfig = pk_hex + t[2] + t[3]
+        cid, cb, mb, ctx = rng.randbytes(32), rng.randrange(10, 2 ** 40), rng.randrange(10, 2 ** 40), rng.randbytes(7)
+        est = full_establish(h, Mg, rng, cid, cb, mb, ctx)
+        case = {"op": "generated_merchant", "cid": cid.hex(), "cb": cb, "mb": mb}
+        run.case(case)
+        run.count("generated merchant establishment")
+        if not run.check_monitor("honest_establish_accepted", est["ok"], dict(case, stage=est.get("stage"))):
+            continue
+        req = est["e"]["req"]
+        st = req["state"]
+        ms, mc = state_msg(st), close_msg(st)
+        cs_tok = h.call("bsig_unblind", est["mi"]["closing"], sc(req["bf_close"]))[1]
+        tk_tok = h.call("bsig_unblind", est["token"], sc(req["bf_token"]))[1]
+        ok = (h.call("sig_verify", 5, pk_hex, scs(mc), cs_tok)[0] == "1" and h.call("sig_verify", 5, pk_hex, scs(ms), tk_tok)[0] == "1")
+        run.check_monitor("signatures_cover_exactly_the_agreed_values", ok, case)
+        d = rng.choice([1, 1000, rand_nz(rng)])
+        for (msg, tok, nm) in ((mc, cs_tok, "close"), (ms, tk_tok, "state")):
+            for (i, j) in ((3, 4), (4, 3), (0, 2), (2, 4), (0, 3)):
+                m2 = list(msg)
+                m2[i], m2[j] = (m2[i] + d) % Q, (m2[j] - d) % Q
+                bad = h.call("sig_verify", 5, pk_hex, scs(m2), tok)[0] == "1"
+                run.check_monitor("signatures_reject_any_other_slot_value", not bad, dict(case, which=nm, moved=[j, i], delta=d))
+            for j in range(5):
+                m2 = list(msg)
+                m2[j] = (m2[j] + 1) % Q
+                bad = h.call("sig_verify", 5, pk_hex, scs(m2), tok)[0] == "1"
+                run.check_monitor("signatures_reject_any_other_slot_value", not bad, dict(case, which=nm, slot=j))
 
 
 def compensating_family(run, h, pts, batch, rng, M, cid, cb, mb, ctx):
